@@ -382,12 +382,14 @@ impl Sim {
     /// Advance the virtual clock to the earliest pending deadline. False if nothing is pending.
     fn advance(&self) -> bool {
         let mut s = self.0.borrow_mut();
-        let Some(min) = s.sleeps.iter().map(|(_, d)| *d).min() else {
+        // Only deadlines in the future matter: a sleep that has already expired but has not been
+        // polled yet (e.g. the poll-interval timer of `CsptpSource::run` expiring while a longer
+        // response timeout is still being awaited) must not pin the clock.
+        let now = s.now_ns;
+        let Some(min) = s.sleeps.iter().map(|(_, d)| *d).filter(|d| *d > now).min() else {
             return false;
         };
-        if min > s.now_ns {
-            s.now_ns = min;
-        }
+        s.now_ns = min;
         s.advances += 1;
         true
     }
